@@ -264,6 +264,7 @@ class SiteChecker:
             if H.tag(p) == "bind":
                 env.set(p[1], ("param", p[4]), 0)
         w.walk(self.hir, env)
+        self.counter_loops = w.counter_loops
 
     def on_node(self, n, env, loops, seq):
         t = n[0]
@@ -522,7 +523,7 @@ def loop_progress(chk, fn_path):
                     if "read" in txt:
                         has_read = True
         cond = n[1] if t == "while" else None
-        bounded = False
+        bounded = id(n) in getattr(chk, "counter_loops", ())  # a counter that only grows, compared with a bound the loop does not change
         if cond is not None:
             c = H.strip(cond)
             if H.tag(c) == "bin" and c[2] in ("Lt", "Ne", "Le") and (H.lit_int(c[5]) is not None or H.tag(H.strip(c[5])) == "path"):
